@@ -334,6 +334,9 @@ func genCase(t *rapid.T) Case {
 	}
 	if rapid.Bool().Draw(t, "ah") {
 		c.AllowHeaders = rapid.SliceOfN(rapid.SampledFrom([]string{"X-A", "Content-Type", "Authorization"}), 1, 2).Draw(t, "aheaders")
+		if rapid.IntRange(0, 4).Draw(t, "ahblank") == 0 {
+			c.AllowHeaders = []string{""} // a configured list that names nothing (strings.Split of an unset variable): no header is allowed
+		}
 	}
 	if rapid.Bool().Draw(t, "eh") {
 		c.ExposeHeaders = []string{"X-Exposed"}
